@@ -309,3 +309,13 @@ PLAN = {
   "C11": {"quick": C11_Q, "thorough": C11_T, "evidence": {}},
  },
 }
+
+
+# pseudo-property used only by bin/thorough-validate: every thorough-only obligation once, to find out which
+# of them finish within their budget on this machine (those that do not are removed from the thorough lists)
+_TH = []
+for _k, _v in list(PLAN["properties"].items()):
+    for _h in _v.get("thorough", []):
+        _TH.append(dict(_h, timeout=_h.get("timeout_thorough", 2700), covers=[]))
+PLAN["properties"]["_TH"] = {"quick": _TH, "thorough": [], "owns_panics": True,
+                             "labels": ["C%02d" % i for i in range(1, 21)], "evidence": {}}
